@@ -14,6 +14,7 @@ func (u *UseCase) DeleteTx(_ context.Context, txId string) []model.File {
 		return nil
 	}
 
+	verifhook.At("core.deleteTx.lock")
 	tx.Lock()
 	defer func() {
 		tx.Unlock()
